@@ -198,13 +198,65 @@ def observe(sysobj, tmpd, with_solve=True):
     return obs
 
 
-def obs_diff(a, b):
+def obs_diff(a, b, rel=0.0):
     """Keys of the observables that differ, with a short description."""
     out = []
     for k in a:
-        if not H.cell_equal(_plain(a[k]), _plain(b[k])):
+        if not H.cell_equal(_plain(a[k]), _plain(b[k]), rel):
             out.append((k, _first_diff(a[k], b[k])))
     return out
+
+
+def canon(obs):
+    """Observables modulo what the assignment of graph node indices decides: the order of rows and of siblings (and,
+    through the order in which sibling currents are summed, the last digits of solved values - compare with rel>0).
+    Needed when TWO System objects are compared after a del_comp() with several descendants: rustworkx returns the
+    descendants as a hash set with a per-call random order, so the freed indices are recycled in an order that
+    differs from object to object (and from run to run) even for identical call sequences."""
+    out = {}
+    for k, v in obs.items():
+        if k == "tree" and isinstance(v, str) and not v.startswith("raised"):
+            out[k] = _canon_tree(v)
+        elif isinstance(v, dict) and "rows" in v and "columns" in v:
+            out[k] = {"columns": v["columns"],
+                      "rows": sorted(v["rows"], key=lambda r: json.dumps([x for x in r if isinstance(x, str)]))}
+        elif k == "save" and isinstance(v, dict):
+            out[k] = _canon_json(v)
+        else:
+            out[k] = v
+    return out
+
+
+def _canon_json(x):
+    if isinstance(x, dict):
+        return {k: _canon_json(x[k]) for k in sorted(x)}
+    if isinstance(x, list):
+        ys = [_canon_json(y) for y in x]
+        if ys and all(isinstance(y, dict) for y in ys):
+            ys.sort(key=lambda y: json.dumps(y, sort_keys=True, default=repr))
+        return ys
+    return x
+
+
+def _canon_tree(txt):
+    lines = txt.rstrip("\n").split("\n")
+    root = [lines[0], []]
+    stack = [(0, root)]
+    for ln in lines[1:]:
+        pos = ln.find("\u2500\u2500 ")
+        if pos < 0:
+            return txt  # unknown layout: compare the text as it is
+        depth = pos // 4 + 1
+        node = [ln[pos + 3:], []]
+        while stack and stack[-1][0] >= depth:
+            stack.pop()
+        stack[-1][1][1].append(node)
+        stack.append((depth, node))
+
+    def norm(n):
+        return [n[0], sorted((norm(c) for c in n[1]), key=lambda c: json.dumps(c))]
+
+    return norm(root)
 
 
 def _plain(x):
